@@ -42,10 +42,10 @@ NOTES = {
             'trusted: A0-A4; cross-representation As casts are proved only as far as the cross-digit unit reaches (else bounded Kani)'),
     'C17': ('proof', 'Verus verifies the operator/assign/reference trait impls as trait impls (vstd SpecImpl gives each its precondition = the inherent method\'s no-panic condition) with the inherent method\'s value-level postcondition; Sum/Product (iterator folds) by bounded Kani harnesses.',
             'trusted: A0-A4; see evidence for shapes left to Kani'),
-    'C18': ('proof', 'Verus proves the num_integer/num_traits method bodies it can reach (emitted as inherent methods because the external traits cannot be declared) against the trait documentation over the denoted value; roots by bounded Kani harnesses only.',
-            'trusted: A0-A4; Roots (closure-based Newton iteration) not decided by proof; known finding for nth_root overflow if listed'),
-    'C19': ('model_checking', 'bounded: Kani explores every input of each listed configuration for FromPrimitive/ToPrimitive/AsPrimitive against primitive TryFrom/`as`.',
-            'bounded to the listed configurations; trusted: Kani/CBMC'),
+    'C18': ('proof', 'Verus proves the num_integer/num_traits method bodies on the real code (emitted as inherent methods because the external traits cannot be declared): Integer::{div_floor, mod_floor, div_rem, is_multiple_of, is_even, is_odd}, the binary gcd loop and lcm against a divisibility specification, Euclid/Signed/PrimInt/MulAdd and every Checked/Wrapping/Saturating/Overflowing forwarder with the contract of the inherent method it forwards to; sqrt/cbrt/nth_root only by bounded Kani harnesses.',
+            'trusted: A0-A4; Roots (closure-based Newton iteration over multi-digit division) is not decided by proof; the nth_root overflow above 128 bits is a recorded known finding'),
+    'C19': ('proof', 'Verus proves ToPrimitive::to_{u,i}{8..128} and FromPrimitive::from_{u,i}{8..128} on the real method bodies (emitted as inherent methods because the external traits cannot be declared): Some exactly when the value is representable, with the same numeric value, for every digit type and generic N; float conversions, usize/isize and AsPrimitive by bounded Kani harnesses (630 registered).',
+            'trusted: A0-A4; the float/usize/AsPrimitive part is bounded to the listed Kani configurations and never counted as proved'),
     'C20': ('proof', 'Verus proves range membership of the real UniformInt sampler bodies (RNG replaced by an arbitrary-value oracle, rewrite R15) and that the acceptance zone satisfies the hypothesis of the (proved) uniformity lemma; Fill/Standard by bounded Kani harnesses.',
             'trusted: A0-A4, A7 (termination of rejection loops not claimed; RNG = arbitrary oracle)'),
 }
